@@ -112,6 +112,12 @@ def whole_stage(ctx):
         ctx.rng.shuffle(progs)
         cfg2["programs"] = progs
         jobs.append((cfg2, False, ctx.rng.choice([2, 3, 4])))
+        # more programs than 4 x pool processes: Pool.starmap then sends several program tasks to a
+        # worker in one chunk, i.e. pickled together (they share one unpickled infrastructure object)
+        cfg3 = dict(cfg)
+        cfg3["programs"] = list(cfg["programs"]) + [{"name": "P_OGIb", "methods": ["OGI"]},
+                                                     {"name": "P_airb", "methods": ["AIR", "OGI_FU"]}]
+        jobs.append((cfg3, False, 1))
     with cf.ThreadPoolExecutor(max_workers=4) as ex:
         results = list(ex.map(lambda j: W.run_config(j[0], debug=j[1], processes=j[2], trace=False), jobs))
     try:
